@@ -621,6 +621,7 @@ public:
             else if (p == "C13") { o.max_n = thorough && rng.chance(300) ? 60 : 14; o.max_m = 200; o.allow_int = false; }
             else if (p == "C14") { o.max_n = thorough && rng.chance(250) ? 24 : 9; o.max_m = thorough ? 60 : 30; }
             else if (p == "C16") { o.max_n = thorough && rng.chance(300) ? 60 : 12; o.max_m = 200; o.allow_int = false; }
+            o.boundary_pm = prop == "C07" ? 25 : 10; o.boundary_max_n = (p == "C13" || p == "C16") ? 257 : 65;
             gen::GGraph g = gen::gen_graph(rng, o);
             if (p == "C12" && rng.chance(400)) for (auto &e : g.e) e.w = 1;      // maximal ties
             cs = Json::object();
